@@ -2,7 +2,10 @@ package main
 
 import (
 	"fmt"
+	"go/constant"
+	"go/token"
 	"go/types"
+	"regexp"
 	"sort"
 	"strings"
 
@@ -198,6 +201,49 @@ func checkC27(r *Run) {
 		req("signature equals HMAC(secret, payload)", "base64.Encoding.EncodeToString(base64.RawURLEncoding, iface:hash.Hash.Sum(hmac.New(sha256.New, api.csrfSecretKey), nil)) == "+tp+"[1]"),
 		req("payload parses", "ok(json.Unmarshal(*))"),
 		req("not expired", "!time.Time.After(time.Now(), *ExpiresAt)"))
+	// the set of enabled API sets is built from the option values under the same normalisation the option
+	// validator applied to them: a name that was accepted is the name that is inserted / deleted
+	if vf, bf := r.fn("C27-R2", "skycoin.validateAPISets"), r.fn("C27-R2", "skycoin.buildAPISets"); vf != nil && bf != nil {
+		elem := regexp.MustCompile(`(strings\.Split\(\$0\.\w+, ","\)|\$1)\[i\]`)
+		norm := func(t string) string { return elem.ReplaceAllString(t, "ELEM") }
+		vff, bff := r.P.Facts(vf), r.P.Facts(bf)
+		validated := ""
+		for _, b := range vf.Blocks {
+			for _, in := range b.Instrs {
+				if bo, ok := in.(*ssa.BinOp); ok && bo.Op == token.EQL {
+					if c, isC := bo.Y.(*ssa.Const); isC && c.Value != nil && c.Value.Kind() == constant.String && constant.StringVal(c.Value) == "READ" {
+						validated = norm(vff.Term(bo.X))
+					}
+				}
+			}
+		}
+		r.Check("C27-R2", "skycoin.validateAPISets: the validated form of an API set name was identified", r.P.Pos(vf.Pos()), strings.Contains(validated, "ELEM"), validated)
+		nKeys := 0
+		for _, b := range bf.Blocks {
+			for _, in := range b.Instrs {
+				var key ssa.Value
+				switch x := in.(type) {
+				case *ssa.MapUpdate:
+					key = x.Key
+				case *ssa.Call:
+					if calleeName(&x.Call) == "delete" {
+						key = x.Call.Args[1]
+					}
+				}
+				if key == nil {
+					continue
+				}
+				t := norm(bff.Term(key))
+				if !strings.Contains(t, "ELEM") {
+					continue // the built-in list of -enable-all-api-sets
+				}
+				nKeys++
+				r.Check("C27-R2", "skycoin.buildAPISets: an option value enters / leaves the enabled set under the name that was validated", r.P.Pos(in.Pos()), t == validated,
+					"applied as "+t+", validated as "+validated+": a spelling the validator accepts (blanks, lower case) is not applied, the set stays enabled / disabled")
+			}
+		}
+		r.Check("C27-R2", "skycoin.buildAPISets: option values applied", r.P.Pos(bf.Pos()), nKeys == 2, fmt.Sprint(nKeys))
+	}
 	// the node's access-control settings reach api.Config unconditionally and under their own names: what
 	// createGUI hands to api.Create / api.CreateHTTPS is one literal holding the configured values
 	if fn := r.fn("C27-R2", "skycoin.Coin.createGUI"); fn != nil {
